@@ -1,0 +1,93 @@
+//go:build verif
+
+package pickfirst
+
+// Contracts checked by /verif (contract-based deductive verification).
+// This file is comment-only; it is compiled only with -tags=verif.
+
+//@ import connectivity "google.golang.org/grpc/connectivity"
+
+// ---- C34: the address cursor ---------------------------------------------------------------------
+//
+// addresses are tried in list order: the cursor only moves forward by one, never
+// past the end by more than one, and a failed seek leaves it where it was.
+
+//@ spec func alOK(al *addressList) bool { return al != nil && 0 <= al.idx && al.idx <= len(al.addresses) }
+
+//@ func (*addressList).isValid
+//@   prop C34
+//@   nopanic
+//@   requires al != nil
+//@   ensures result == (al.idx < len(al.addresses))
+
+//@ func (*addressList).increment
+//@   prop C34
+//@   nopanic
+//@   modifies al.idx
+//@   requires alOK(al)
+//@   ensures alOK(al)
+//@   ensures implies(old(al.idx) >= len(al.addresses), !result && al.idx == old(al.idx))
+//@   ensures implies(old(al.idx) < len(al.addresses), al.idx == old(al.idx)+1 && result == (al.idx < len(al.addresses)))
+
+//@ func (*addressList).hasNext
+//@   prop C34
+//@   nopanic
+//@   requires alOK(al)
+//@   ensures result == (al.idx+1 < len(al.addresses))
+
+//@ func (*addressList).reset
+//@   prop C34
+//@   nopanic
+//@   modifies al.idx
+//@   requires al != nil
+//@   ensures al.idx == 0
+
+//@ func (*addressList).updateAddrs
+//@   prop C34
+//@   nopanic
+//@   modifies al.idx, al.addresses
+//@   requires al != nil
+//@   ensures al.idx == 0 && sameslice(al.addresses, addrs)
+
+//@ func (*addressList).seekTo
+//@   prop C34
+//@   requires alOK(al)
+//@   loop 1 invariant al.idx == old(al.idx)
+//@   ensures implies(!result, al.idx == old(al.idx))
+//@   ensures implies(result, 0 <= al.idx && al.idx < len(al.addresses))
+
+// ---- C34: the happy-eyeballs timer ---------------------------------------------------------------
+//
+// scheduleNextConnectionLocked$1 is the timer callback, $2 the cancel function
+// stored in the balancer. Cancelling marks the callback cancelled under the
+// balancer's mutex BEFORE stopping the timer, and a callback that finds itself
+// cancelled after acquiring the mutex does nothing: stopping a timer cannot
+// recall a callback that has already started, the flag can.
+
+//@ monitor pickfirstBalancer.mu protects addressList, state, subConns, firstPass, numTF, cancelConnectionTimer
+
+//@ func (*pickfirstBalancer).scheduleNextConnectionLocked$1
+//@   prop C34
+//@   assert at call increment#1 !cancelled
+//@   assert at call requestConnectionLocked#1 !cancelled && lastret("increment") == 1
+
+//@ func (*pickfirstBalancer).scheduleNextConnectionLocked$2
+//@   prop C34
+//@   assert at call closeFn#1 cancelled
+
+// scheduleNextConnectionLocked: the previous timer is cancelled first; a new one
+// is started only if there is a next address.
+//@ func (*pickfirstBalancer).scheduleNextConnectionLocked
+//@   prop C34
+//@   opt purecalls cancelConnectionTimer
+//@   requires b != nil && alOK(&b.addressList)
+//@   assert at call hasNext#1 ncalls("cancelConnectionTimer") == 1
+//@   assert at call TimeAfterFunc#1 lastret("hasNext") == 1 && arg0 == connectionDelayInterval
+
+// updateBalancerState: a state equal to the current one is not re-published,
+// except TRANSIENT_FAILURE (whose picker carries the latest error).
+//@ func (*pickfirstBalancer).updateBalancerState
+//@   prop C34
+//@   requires b != nil
+//@   assert at call forceUpdateConcludedStateLocked#1 arg1 == newState && (newState.ConnectivityState != b.state || b.state == connectivity.TransientFailure)
+//@   assert at return 1 newState.ConnectivityState == b.state && b.state != connectivity.TransientFailure && ncalls("forceUpdateConcludedStateLocked") == 0
